@@ -251,8 +251,8 @@ package mcp
 // unconstrained dynamic types, so "any JSON type in any field" is decided for
 // the whole type lattice at once).
 
-//@ sweepscope[C06] kinds=typeassert,close,nilmap,index,div,hashkey files=internal/httputil/accept.go,internal/sseutil/writer.go,internal/session/session.go,streamable_server.go,sse_server.go,stdio_server.go,handler.go,manager_tools.go,manager_prompt.go,manager_resource.go,manager_lifecycle.go,jsonrpc.go,mcp_types.go,responder_json.go,responder_sse.go,responder.go,session.go,server.go,notifier.go,mcp_notification.go,internal/session/session.go
-//@ sweepscope[C07] kinds=typeassert,close,nilmap,index,div,hashkey,freshdecode files=internal/utils/json.go,streamable_client.go,sse_client.go,transport_stdio.go,client.go,stdio_client.go,utils_json.go,mcp_tools.go,mcp_prompts.go,mcp_resources.go,transport_http.go except=.With,.New
+//@ sweepscope[C06] kinds=typeassert,close,nilmap,index,div,hashkey,nilresult files=internal/httputil/accept.go,internal/sseutil/writer.go,internal/session/session.go,streamable_server.go,sse_server.go,stdio_server.go,handler.go,manager_tools.go,manager_prompt.go,manager_resource.go,manager_lifecycle.go,jsonrpc.go,mcp_types.go,responder_json.go,responder_sse.go,responder.go,session.go,server.go,notifier.go,mcp_notification.go,internal/session/session.go
+//@ sweepscope[C07] kinds=typeassert,close,nilmap,index,div,hashkey,freshdecode,nilresult files=internal/utils/json.go,streamable_client.go,sse_client.go,transport_stdio.go,client.go,stdio_client.go,utils_json.go,mcp_tools.go,mcp_prompts.go,mcp_resources.go,transport_http.go except=.With,.New
 
 // Maps that are created by the constructor and never reassigned: final fields,
 // non-nil by type invariant (assumed for objects built by their constructors;
@@ -1031,7 +1031,7 @@ package mcp
 //@   before call WriteEvent#1 assert[C10 event-id-freshly-generated-by-the-responders-generator] arg2.ID == lastgen && lastgenw == r.sseWriter && gens == old(gens) + 1
 //@   ensures[C10 returned-id-is-the-id-written] ret1 == nil ==> ret == lastgen
 //@ func sseNotificationSender.SendCustomNotification
-//@   before call Marshal#1 assert[C10 method-and-every-parameter-reach-the-wire-message] jsonNotification.Method == method && jsonNotification.JSONRPC == "2.0" && (forall k string :: k != "_meta" && old(k in params) ==> (k in jsonNotification.Params.AdditionalFields) && jsonNotification.Params.AdditionalFields[k] == old(params[k]))
+//@   before call Marshal#1 assert[C10 method-and-every-parameter-reach-the-wire-message] jsonNotification.Method == old(method) && jsonNotification.JSONRPC == "2.0" && (forall k string :: k != "_meta" && old(k in params) ==> (k in jsonNotification.Params.AdditionalFields) && jsonNotification.Params.AdditionalFields[k] == old(params[k]))
 //@   before call Marshal#1 assert[C10 meta-is-kept-as-meta-or-as-a-plain-field] old("_meta" in params) ==> (istype(old(params["_meta"]), map[string]interface{}) ? same(jsonNotification.Params.Meta, old(params["_meta"]).(map[string]interface{})) : (("_meta" in jsonNotification.Params.AdditionalFields) && jsonNotification.Params.AdditionalFields["_meta"] == old(params["_meta"])))
 
 // client side: each decoded notification goes exactly once to the handler registered for its method
@@ -1626,4 +1626,22 @@ package mcp
 //@ func sseClientTransport.close
 //@   loop 1 invariant[C08] (forall k string :: visited(1, k) ==> closed(t.responses[k])) && (forall k string :: (k in t.responses) ==> ranged(1, k))
 //@   before call Unlock#2 assert[C08 every-pending-call-is-woken-when-the-transport-closes] forall k string :: atlock(k in t.responses) ==> closed(atlock(t.responses[k]))
+//@
+// C15 — middleware options accumulate: a later WithSSEMiddleware / WithMiddleware keeps the middlewares of earlier
+// ones, in option order (index 0 stays outermost)
+//@ func WithSSEMiddleware$1
+//@   loop 1 invariant[C15 counter] 0 - 1 <= rangeindex && rangeindex < len(middlewares) && s.mcpHandler == old(s.mcpHandler) && len(s.mcpHandler.middlewares) == len(old(s.mcpHandler.middlewares)) + rangeindex + 1
+//@   loop 1 invariant[C15 earlier-kept] forall j int :: 0 <= j && j < len(old(s.mcpHandler.middlewares)) ==> s.mcpHandler.middlewares[j] == old(s.mcpHandler.middlewares[j])
+//@   loop 1 invariant[C15 given-in-order] forall j int :: 0 <= j && j <= rangeindex ==> s.mcpHandler.middlewares[len(old(s.mcpHandler.middlewares)) + j] == middlewares[j]
+//@   ensures[C15 earlier-middlewares-are-kept-in-front] len(s.mcpHandler.middlewares) == len(old(s.mcpHandler.middlewares)) + len(middlewares) && (forall j int :: 0 <= j && j < len(old(s.mcpHandler.middlewares)) ==> s.mcpHandler.middlewares[j] == old(s.mcpHandler.middlewares[j]))
+//@   ensures[C15 the-given-middlewares-follow-in-argument-order] forall j int :: 0 <= j && j < len(middlewares) ==> s.mcpHandler.middlewares[len(old(s.mcpHandler.middlewares)) + j] == middlewares[j]
+//@
+//@ func WithMiddleware$1
+//@   ensures[C15 earlier-middlewares-are-kept-in-front] len(s.pendingMiddlewares) == len(old(s.pendingMiddlewares)) + len(middlewares) && (forall j int :: 0 <= j && j < len(old(s.pendingMiddlewares)) ==> s.pendingMiddlewares[j] == old(s.pendingMiddlewares[j]))
+//@   ensures[C15 the-given-middlewares-follow-in-argument-order] forall j int :: 0 <= j && j < len(middlewares) ==> s.pendingMiddlewares[len(old(s.pendingMiddlewares)) + j] == middlewares[j]
+//@
+// C05 / C01 — legacy SSE: the pending table of server-issued requests is keyed by request id alone, so ids are
+// drawn from the one server-wide counter (two sessions can never have the same id in flight)
+//@ func SSEServer.ListRoots
+//@   before call SendRequest#1 assert[C05,C01 the-request-id-is-drawn-from-the-server-wide-counter] arg3 != nil && arg3.ID == asany(int64(s.requestID)) && s.requestID == old(s.requestID) + 1 && arg2 == sessionID
 //@
